@@ -194,7 +194,7 @@ impl<K: KeyT, V: ValT> World<K, V> {
             content_limit,
             gw: if cfg!(miri) { 8 } else { 16 },
             silent: false,
-            nolive: false,
+            nolive: cfg!(miri),
             probe_ctr: 0,
         }
     }
